@@ -2,14 +2,14 @@
 C03 — every encoded packet ends with the correct SMBus PEC.
 -/
 import Mctp.Lemmas.Encode
+import Mctp.Lemmas.Decode
 import Mctp.Spec.Api
 namespace Mctp
 namespace C03
 
 /-- the library's byte-wise CRC-8 is the bit-serial SMBus PEC (poly x^8+x^2+x+1, init 0,
 MSB first, no reflection, no final XOR) -/
-theorem crc8_eq_spec (xs : Bytes) : crc8 xs = Spec.crc xs := by
-  sorry
+theorem crc8_eq_spec (xs : Bytes) : crc8 xs = Spec.crc xs := Mctp.crc8_eq_spec xs
 
 /-- every successfully encoded packet: last byte = PEC of the rest; CRC of the whole packet is zero -/
 theorem pec (c : Ctx) (dst : B) (e : Enc) (buf buf' : Bytes) (n : Nat)
